@@ -126,23 +126,27 @@ impl Axecutor {
             displacement,
             segment,
         } = o;
+        // With an address-size override prefix (67h), base and index are 32-bit registers and the
+        // effective address is truncated to 32 bits before the segment base is added
+        let mut addr32 = false;
+
         let mut addr: u64 = 0;
         if let Some(base) = base {
-            addr = addr.wrapping_add(
-                self.reg_read_64(base)
-                    .expect("reading memory operand base register"),
-            );
+            addr = addr.wrapping_add(self.mem_addr_register(base, &mut addr32));
         }
         if let Some(index) = index {
             addr = addr.wrapping_add(
-                self.reg_read_64(index)
-                    .expect("reading memory operand index register")
+                self.mem_addr_register(index, &mut addr32)
                     .wrapping_mul(scale as u64),
             );
         }
 
         // This overflow is explicitly allowed, as x86-64 encodes negative values as signed integers
         addr = addr.wrapping_add(displacement);
+
+        if addr32 {
+            addr &= 0xffff_ffff;
+        }
 
         if let Some(reg) = segment {
             match reg {
@@ -171,6 +175,19 @@ impl Axecutor {
         }
 
         addr
+    }
+
+    /// Value of a base or index register of a memory operand; these are 64-bit registers unless
+    /// the instruction has an address-size override prefix, which is noted in `addr32`
+    fn mem_addr_register(&self, reg: SupportedRegister, addr32: &mut bool) -> u64 {
+        if iced_x86::Register::from(reg).is_gpr32() {
+            *addr32 = true;
+            self.reg_read_32(reg)
+                .expect("reading 32-bit memory operand register")
+        } else {
+            self.reg_read_64(reg)
+                .expect("reading memory operand register")
+        }
     }
 
     /// Effective address without the segment base, as computed by LEA (which ignores segment overrides)
@@ -204,8 +221,9 @@ impl Axecutor {
             iced_x86::OpKind::Memory => {
                 let base = match i.memory_base() {
                     iced_x86::Register::None => None,
-                    // If base is RIP, we can use the displacement as-it. No need to add it to the memory address
-                    iced_x86::Register::RIP => None,
+                    // If base is RIP (or EIP with an address-size override), we can use the displacement as-it.
+                    // No need to add it to the memory address
+                    iced_x86::Register::RIP | iced_x86::Register::EIP => None,
                     r => Some(SupportedRegister::from(r)),
                 };
                 let index = match i.memory_index() {
